@@ -190,10 +190,15 @@ Lemma lang_head_build : forall types t h rest, In t types -> length t = 3%nat ->
 Proof.
   intros types t h rest Ht Lt Lh Hh.
   destruct t as [|a [|b [|c [|]]]]; try discriminate. apply mem_bytes_In in Ht.
-  unfold lang_head. cbn [S_swh1 app firstn skipn].
+  set (s := S_swh1 ++ [a; b; c] ++ [58] ++ h ++ rest).
+  assert (E1 : firstn 6 s = S_swh1) by reflexivity.
+  assert (E2 : firstn 3 (skipn 6 s) = [a; b; c]) by reflexivity.
+  assert (E3 : firstn 1 (skipn 9 s) = S_colon) by reflexivity.
+  assert (E4 : skipn 10 s = h ++ rest) by reflexivity.
+  assert (E5 : skipn 50 s = skipn 40 (h ++ rest)) by reflexivity.
   assert (T : firstn 40 (h ++ rest) = h) by (rewrite <- Lh; apply take_app_length).
   assert (D : skipn 40 (h ++ rest) = rest) by (rewrite <- Lh; apply drop_app_length).
-  rewrite T, D, Ht, Lh, Hh. reflexivity.
+  unfold lang_head. rewrite E1, E2, E3, E4, E5, T, D, Ht, Lh, Hh, !beqb_refl. reflexivity.
 Qed.
 
 Lemma lang_id_spec : forall types s, (forall t, In t types -> In t DOC_EXT_TYPES) ->
